@@ -10,7 +10,8 @@ from vgen import reactions as G
 
 RULE = ("the same batch (fast MCS reactions + rule-based, input-balanced and declined ones, MCS rows placed first, "
         "last and interleaved) is run through the real Balancer at thresholds {0, 1} + every observed confidence c, "
-        "nextafter(c, +-inf), c +- 0.0004, midpoints between observed confidences and random values; compared with "
+        "nextafter(c, +-inf), c +- 0.0004, midpoints between observed confidences and random values; a third of the batches also with the result "
+        "cache switched on (ascending and descending threshold order over a fresh cache directory); compared with "
         "the threshold-0 run: confidence unchanged and within [0,1], MCS rows solved iff reported confidence >= t, "
         "demoted rows name t, all other rows identical, monotone in t; distinct non-trivial = distinct (reaction, t) "
         "with t within 0.0005 of an observed confidence or between two observed confidences")
@@ -80,6 +81,13 @@ def work(shard, res, tier, seed):
         v = shard["replay"]
         inputs, ts = v["inputs"], [0] + list(v["thresholds"])
         b, _ = rowlib.balancer(0, 1, trace=False)
+        if v.get("cached"):
+            b.confidence_threshold = 0
+            base, _, _ = pipeline.run(b, inputs)
+            confs = sorted({r["confidence"] for r in base if r.get("solved_by") == "mcs-based"
+                            and isinstance(r.get("confidence"), float)})
+            cached_sweeps(inputs, base, confs, res)
+            return
         compare(b, inputs, sorted(set(ts)), res)
         return
     rng = common.rng(seed, "C13w", shard["salt"])
@@ -118,9 +126,31 @@ def work(shard, res, tier, seed):
         ts.add(round(rng.random(), 4))
     ts = sorted(t for t in ts if 0.0 <= t <= 1.0)
     compare(b, inputs, ts, res, base=base, confs=confs)
+    if shard["salt"] % 3 == 0 and confs:
+        cached_sweeps(inputs, base, confs, res)
 
 
-def compare(b, inputs, ts, res, base=None, confs=None):
+def cached_sweeps(inputs, base, confs, res):
+    """the same judgement with the result cache switched on (fresh cache directory per sweep): thresholds just
+    below / at / just above every observed confidence, once in ascending and once in descending order, so that a
+    cache entry written at one threshold is on disk when its neighbour is asked for"""
+    import shutil
+    import tempfile
+    ts = set()
+    for c in confs:
+        ts.update([c - 0.0004, c, c + 0.0004])
+    ts = sorted(t for t in ts if 0.0 <= t <= 1.0)
+    for order in (ts, ts[::-1]):
+        tmp = tempfile.mkdtemp(prefix="verif_c13c_")
+        try:
+            bc = pipeline.make_balancer(confidence_threshold=0, n_jobs=1, cache=True, cache_dir=tmp)
+            compare(bc, inputs, ts, res, base=base, confs=confs, run_order=order)
+            res.count("cached_sweeps")
+        finally:
+            shutil.rmtree(tmp, ignore_errors=True)
+
+
+def compare(b, inputs, ts, res, base=None, confs=None, run_order=None):
     if base is None:
         b.confidence_threshold = 0
         base, _, _ = pipeline.run(b, inputs)
@@ -128,7 +158,7 @@ def compare(b, inputs, ts, res, base=None, confs=None):
                         and isinstance(r.get("confidence"), float)})
     runs = {}
     try:
-        for t in ts:
+        for t in (run_order or ts):
             b.confidence_threshold = t
             rows, _, err = pipeline.run(b, inputs)
             runs[t] = rows if (not err and rows is not None and len(rows) == len(inputs)) else None
@@ -159,6 +189,7 @@ def compare(b, inputs, ts, res, base=None, confs=None):
                 continue
             res.ev()
             w = dict(case={"reaction": inputs[i], "threshold": t}, inputs=inputs, thresholds=[t],
+                     cached=bool(getattr(b, "cache", False)), run_order=list(run_order) if run_order else None,
                      row={k: r.get(k) for k in COLS}, base_row={k: r0.get(k) for k in COLS})
             is_mcs = r0.get("solved_by") == "mcs-based" and r0.get("solved") is True
             if is_mcs:
@@ -202,4 +233,4 @@ def compare(b, inputs, ts, res, base=None, confs=None):
 
 def conclude_args(res, tier, seed):
     return {"need": {"mcs_rows_evaluated": 300, "other_rows_evaluated": 100, "demotions_evaluated": 100,
-                     "thresholds_run": 60, "back_to_zero_runs": 5}, "min_cases": 100}
+                     "thresholds_run": 60, "back_to_zero_runs": 5, "cached_sweeps": 4}, "min_cases": 100}
